@@ -187,7 +187,7 @@ func TestC09(t *testing.T) {
 			exp := model.Apply(c, now)
 			got, err := ses.client(c.Port).Do(c)
 			if err != nil {
-				undecided(t, rec, fmt.Sprintf("C09 %s step %d: %v", cfg, i, err))
+				undecidedOrHang(t, rec, st, ses.client(c.Port), err, fmt.Sprintf("C09 %s step %d: %v", cfg, i, err))
 			}
 			if msg := compare(c, true, exp, got); msg != "" {
 				fail(i, "reply: "+msg)
